@@ -71,18 +71,18 @@ theorem C17_first_of_equal_rank (pre post : List VerInfo) (allowed : List VerS) 
     (hr : x.rank = v.rank) (hpre : ∀ u ∈ pre, allowed.contains u.ver = true → u.rank < x.rank) :
     v = x := by
   rw [selectVersion_eq_foldl, List.foldl_append, List.foldl_cons] at h
-  have hb : selStep allowed (pre.foldl (selStep allowed) none) x = some x := by
-    cases hb : pre.foldl (selStep allowed) none with
-    | none => exact selStep_none allowed x hx
+  have hb : selStepL allowed (pre.foldl (selStepL allowed) none) x = some x := by
+    cases hb : pre.foldl (selStepL allowed) none with
+    | none => exact selStepL_none allowed x hx
     | some b =>
       obtain ⟨h1, _, _⟩ := selFold_some allowed pre none b hb
       rcases h1 with h1 | h1
       · cases h1
-      · exact selStep_lt allowed b x hx (hpre b h1.1 h1.2)
+      · exact selStepL_lt allowed b x hx (hpre b h1.1 h1.2)
   rw [hb] at h
   -- from `some x` on, the fold only replaces the best by strictly greater ranks
   have key : ∀ (l : List VerInfo) (b : VerInfo), b.rank = v.rank →
-      l.foldl (selStep allowed) (some b) = some v → v = b := by
+      l.foldl (selStepL allowed) (some b) = some v → v = b := by
     intro l
     induction l with
     | nil => intro b _ hv; simp only [List.foldl_nil] at hv; cases hv; rfl
@@ -91,12 +91,12 @@ theorem C17_first_of_equal_rank (pre post : List VerInfo) (allowed : List VerS) 
       simp only [List.foldl_cons] at hv
       by_cases hy : allowed.contains y.ver = true
       · by_cases hlt : b.rank < y.rank
-        · rw [selStep_lt allowed b y hy hlt] at hv
+        · rw [selStepL_lt allowed b y hy hlt] at hv
           have := (selFold_some allowed r (some y) v hv).2.1 y rfl
           omega
-        · rw [selStep_nlt allowed b y hy hlt] at hv
+        · rw [selStepL_nlt allowed b y hy hlt] at hv
           exact ih b hbr hv
-      · rw [selStep_skip allowed (some b) y hy] at hv
+      · rw [selStepL_skip allowed (some b) y hy] at hv
         exact ih b hbr hv
   exact key post x hr h
 
@@ -122,7 +122,7 @@ theorem C17_cacheOK_applyDecls (w : World) (base : RemoteSrc) (decls : List Decl
 theorem C17_cacheOK_drain (w : World) (fuel : Nat) (ph : Bool) (st : BState) (ds : List Diag)
     (st' : BState) (ds' : List Diag) (h : CacheOK w st)
     (hd : drain w fuel ph st ds = .done st' ds') : CacheOK w st' :=
-  drain_inv (cacheOK_stepInv w) fuel ph st ds st' ds' h hd
+  drain_invL (cacheOK_stepInv w) fuel ph st ds st' ds' h hd
 
 theorem C17_cacheOK_applyOp (w : World) (fuel : Nat) (st : BState) (op : Op)
     (h : CacheOK w st) : CacheOK w (applyOp w fuel st op).1 :=
@@ -143,7 +143,7 @@ theorem C17_cache_irrelevant (w : World) (st st' : BState) (src : RegSrc) (allow
       selectVersion vs allowed = some sel ∧
       assoc w.sources (src.pkg, sel.ver) = some (some real) ∧
       out = { pkg := real.pkg, sub := finalSourceSub src.sub real.sub } := by
-  rw [findRegistrySource_eq] at h
+  rw [findRegistrySource_eqL] at h
   split at h
   · cases h
   · next st1 vs e1 =>
@@ -177,7 +177,7 @@ or failure — is `worldAnswer`, which does not mention the state. -/
 theorem C17_cache_irrelevant_fn (w : World) (st : BState) (src : RegSrc) (allowed : List VerS)
     (hc : CacheOK w st) :
     (findRegistrySource w st src allowed).2 = worldAnswer w src allowed := by
-  rw [findRegistrySource_eq]
+  rw [findRegistrySource_eqL]
   unfold worldAnswer
   have hc1 := (cacheOK_stepInv w).versions st src.pkg hc
   have hv : (frsVersions w st src.pkg).2 =
@@ -290,7 +290,7 @@ theorem C17_deprecation (w : World) (st st' : BState) (src : RegSrc) (allowed : 
     (hmiss : assoc st.resolved (src.pkg, sel.ver) = none) :
     assoc st'.deprec (src.pkg, sel.ver) =
       some ((vs.find? (fun v => v.rank = sel.rank)).bind (·.deprecation)) := by
-  rw [findRegistrySource_eq] at h
+  rw [findRegistrySource_eqL] at h
   split at h
   · cases h
   · next st1 vs' e1 =>
@@ -348,24 +348,24 @@ listing is a permutation of it -/
 example : ∀ u ∈ exVersions, ∀ v ∈ exVersions, u.rank = v.rank → u = v := by decide
 example : List.Perm exVersions.reverse exVersions := List.reverse_perm _
 
-/-- on the example world (`exWorld` in Lemmas/BuilderLog: `R` lists 1.1.0, 2.0.0, 1.0.0 in that order):
+/-- on the example world (`exWorldL` in Lemmas/BuilderLog: `R` lists 1.1.0, 2.0.0, 1.0.0 in that order):
 with 1.0.0 and 1.1.0 allowed the answer is the source of 1.1.0 with the requested sub-path joined on,
 the deprecation recorded is that of 1.1.0, and the state-free `worldAnswer` says the same -/
-example : (findRegistrySource exWorld BState.init ⟨exReg, "m".toList⟩
+example : (findRegistrySource exWorldL BState.init ⟨exReg, "m".toList⟩
       ["1.0.0".toList, "1.1.0".toList]).2 = some ⟨exPkgB, "modules/x/m".toList⟩ := by decide
-example : assoc (findRegistrySource exWorld BState.init ⟨exReg, "m".toList⟩
+example : assoc (findRegistrySource exWorldL BState.init ⟨exReg, "m".toList⟩
       ["1.0.0".toList, "1.1.0".toList]).1.deprec (exReg, "1.1.0".toList)
     = some (some ("old".toList, "http://x".toList)) := by decide
-example : worldAnswer exWorld ⟨exReg, "m".toList⟩ ["1.0.0".toList, "1.1.0".toList]
+example : worldAnswer exWorldL ⟨exReg, "m".toList⟩ ["1.0.0".toList, "1.1.0".toList]
     = some ⟨exPkgB, "modules/x/m".toList⟩ := by decide
 /-- the same request after an unrelated earlier resolution (2.0.0 cached): same answer -/
-example : (findRegistrySource exWorld
-      (findRegistrySource exWorld BState.init ⟨exReg, []⟩ ["2.0.0".toList]).1 ⟨exReg, "m".toList⟩
+example : (findRegistrySource exWorldL
+      (findRegistrySource exWorldL BState.init ⟨exReg, []⟩ ["2.0.0".toList]).1 ⟨exReg, "m".toList⟩
       ["1.0.0".toList, "1.1.0".toList]).2 = some ⟨exPkgB, "modules/x/m".toList⟩ := by decide
 /-- listed but nothing allowed: failure (`C17_none_error`); 1.0.0 allowed but the registry has no
 source for it: failure as well -/
-example : (findRegistrySource exWorld BState.init ⟨exReg, []⟩ ["3.0.0".toList]).2 = none := by decide
-example : (findRegistrySource exWorld BState.init ⟨exReg, []⟩ ["1.0.0".toList]).2 = none := by decide
+example : (findRegistrySource exWorldL BState.init ⟨exReg, []⟩ ["3.0.0".toList]).2 = none := by decide
+example : (findRegistrySource exWorldL BState.init ⟨exReg, []⟩ ["1.0.0".toList]).2 = none := by decide
 
 /-- **C17_cex_equal_ranks.** The rank hypothesis of `C17_order_irrelevant` is needed: two listed
 entries of equal rank (the same version printed two ways, say) make the result depend on the order —
